@@ -45,6 +45,8 @@ def spec(tier, seed):
                       "order, no trailing bytes) over whole certificates / CSRs / CRLs of the listed shapes, descending into every extension value; "
                       "value-dependent rules in units with symbolic values: all 511 key-usage subsets, serials of 0..21 arbitrary bytes, every "
                       "algorithm identifier",
-            "outside": "names (HashMap-backed; which writer call each string kind uses is an M fact, yasna's output for those calls is covered by C13); "
+            "outside": "certificate shapes with a caller-supplied (custom) extension (do not finish under the strict validator within 20 min; their "
+                       "wrapper is decided byte-exactly by C02, CSR shapes with custom extensions are covered here); "
+                       "names (HashMap-backed; which writer call each string kind uses is an M fact, yasna's output for those calls is covered by C13); "
                        "custom extension content and CSR attribute values are pass-through and only checked to appear byte-for-byte (C02/C07)",
             "assumptions": ["S1, S3", "array-backed enum vectors", "the strict validator is kani/src/refder.rs, unit-tested natively on known-good and known-bad DER"]}
